@@ -1,0 +1,6 @@
+//go:build !verif
+
+package sseutil
+
+// verifYield is a verification hook; it does nothing unless the "verif" build tag is set.
+func verifYield(point string) {}
